@@ -16,7 +16,33 @@ pub fn n_units(tier: Tier) -> u64 {
         Tier::Thorough => 65536,
     }
 }
+/// The two access paths of the known 'static-escape finding are exercised by fixed histories in
+/// every run (unit 0, subs 0 and 1), so that the KNOWN-FINDING lines do not depend on the seed.
+fn canonical(sub: u64) -> Option<Case> {
+    use super::world::Op;
+    use crate::docs::Loader;
+    let doc = match sub {
+        0 => "VecU64",
+        1 => "BoxU32",
+        _ => return None,
+    };
+    Some(Case {
+        ops: vec![
+            Op::Store { actor: 0, doc: doc.into(), vi: 2, over: None },
+            Op::Load { actor: 0, file: 0, loader: Loader::Mem, flags: 0 },
+            Op::Escape { actor: 1, slot: 0 },
+            Op::Drop { actor: 2, slot: 0 },
+            Op::ReadEscaped { actor: 1, idx: 0 },
+        ],
+    })
+}
+
 pub fn case_for(seed: u64, tier: Tier, unit: u64, sub: u64) -> Case {
+    if unit == 0 {
+        if let Some(c) = canonical(sub) {
+            return c;
+        }
+    }
     let mut r = Rng::new(mix(seed, ID, unit, sub));
     Case { ops: world::gen_ops(&mut r, true, tier) }
 }
